@@ -500,13 +500,14 @@ func TestVerif_C38(t *testing.T) {
 		c    *tls.Config
 	}{{"nocfg", nil}, {"skipverify", &tls.Config{InsecureSkipVerify: true}}, {"servername", &tls.Config{ServerName: "h"}}}
 	addrs := []struct{ name, addr string }{{"hostport", "h:443"}, {"noport", "h"}, {"bare-ipv6", "::1"}, {"two-colons", "h:1:2"}}
+	nBuildable, nUnbuildable := 0, 0
 	for _, tc := range tlsCfgs {
 		for _, ad := range addrs {
 			p := "tls/" + tc.name + "/" + ad.name + "/"
 			base := c38cfg{maxPending: 1, isTLS: true, tlsCfg: tc.c, addr: ad.addr, logTime: 10 * ms}
 			with := func(f func(c *c38cfg)) c38cfg { c := base; f(&c); return c }
 			if c38tlsUnbuildable(base) {
-				r.Add("tls_configurations_unbuildable", 1)
+				nUnbuildable++
 				// nothing can be answered: Dial refuses, should it ever be reached
 				add(p+"seq", 2, 3, with(func(c *c38cfg) {
 					c.dial = []int{1}
@@ -526,7 +527,7 @@ func TestVerif_C38(t *testing.T) {
 				}))
 				continue
 			}
-			r.Add("tls_configurations_buildable", 1)
+			nBuildable++
 			// first call of a thread is never answered (times out), its second call and a second thread follow on the cached configuration
 			add(p+"timeout-then-more", 1, 2, with(func(c *c38cfg) {
 				c.calls = [][]c38call{{cl("A", D, sec), cl("B", T, sec)}, {{id: "C", kind: D, timeout: 3 * sec, after: ms}}}
@@ -538,6 +539,10 @@ func TestVerif_C38(t *testing.T) {
 				c.beh = map[string]c04beh{"A": {}, "B": {}, "C": {}}
 			}))
 		}
+	}
+	if os.Getenv("VERIF_WORKER") == "" { // every mcx worker process builds the scenario list; count once
+		r.Set("tls_configurations_buildable", nBuildable)
+		r.Set("tls_configurations_unbuildable", nUnbuildable)
 	}
 	add("tls/nocfg/hostport/answer-races-deadline", 1, 2, c38cfg{maxPending: 1, isTLS: true, addr: "h:443", calls: mk(false, cl("A", D, sec), cl("B", T, sec)), beh: map[string]c04beh{"A": {stall: sec}, "B": {}}})
 	add("tls/nocfg/hostport/answer/sim", 0, 1, c38cfg{maxPending: 2, isTLS: true, addr: "h:443", calls: mk(true, cl("A", D, sec), cl("B", T, sec)), beh: map[string]c04beh{"A": {}, "B": {}}})
